@@ -458,8 +458,20 @@ class Inliner:
             return None
         c = cands[0]
         inner = {id(n) for n in ast.walk(c)}
-        if any(id(x) not in inner for x in calls):
-            return None  # another call in the statement: evaluation order would have to be argued
+        # other calls are allowed only as enclosing calls of c whose earlier-evaluated parts contain no call (so c runs first anyway)
+        def contains(n, target):
+            return any(x is target for x in ast.walk(n))
+        for x in calls:
+            if id(x) in inner:
+                continue
+            if not contains(x, c):
+                return None
+            parts = [x.func] + list(x.args) + [k.value for k in x.keywords]
+            for part in parts:
+                if contains(part, c):
+                    break
+                if any(isinstance(y, ast.Call) for y in ast.walk(part)):
+                    return None
         if any(isinstance(n, (ast.Lambda, ast.ListComp, ast.SetComp, ast.DictComp, ast.GeneratorExp, ast.IfExp, ast.BoolOp)) and any(y is c for y in ast.walk(n)) for n in ast.walk(top)):
             return None  # conditionally or repeatedly evaluated position
         self.counter += 1
@@ -662,6 +674,53 @@ def _eliminate_aliases(fn):
 # ---------------------------------------------------------------------------------------------------------------------
 # N7 accumulate-by-append loops -> comprehensions;  N8 folding of locals that only name a stable value
 
+def _pure_expr(e) -> bool:
+    """arithmetic / comparison / slicing / tuples over names and constants: no calls, no attribute reads"""
+    if isinstance(e, (ast.Constant, ast.Name)):
+        return True
+    if isinstance(e, ast.UnaryOp):
+        return _pure_expr(e.operand)
+    if isinstance(e, ast.BinOp):
+        return _pure_expr(e.left) and _pure_expr(e.right)
+    if isinstance(e, ast.Compare):
+        return _pure_expr(e.left) and all(_pure_expr(c) for c in e.comparators)
+    if isinstance(e, ast.Tuple):
+        return all(_pure_expr(x) for x in e.elts)
+    if isinstance(e, ast.Subscript):
+        return _pure_expr(e.value) and _pure_expr(e.slice)
+    if isinstance(e, ast.Slice):
+        return all(x is None or _pure_expr(x) for x in (e.lower, e.upper, e.step))
+    if isinstance(e, ast.Attribute) and e.attr.isupper():
+        return True  # module constant such as encoding.COMMAND_BYTES
+    return False
+
+
+def _fold_loop_temps(loop: ast.For):
+    """inside `for ...: t1 = <pure>; t2 = <pure over t1>; L.append(E)` substitute the temporaries into E (they live only in
+    this loop body and name pure values of this iteration)"""
+    body = loop.body
+    if len(body) < 2 or not all(isinstance(s, ast.Assign) and len(s.targets) == 1 and isinstance(s.targets[0], ast.Name) and _pure_expr(s.value) for s in body[:-1]):
+        return
+    last = body[-1]
+    names = [s.targets[0].id for s in body[:-1]]
+    if len(set(names)) != len(names):
+        return
+    target_names = {n.id for n in ast.walk(loop.target) if isinstance(n, ast.Name)}
+    if set(names) & target_names:
+        return
+    folds: Dict[str, ast.AST] = {}
+
+    class R(ast.NodeTransformer):
+        def visit_Name(self, n):
+            if n.id in folds and isinstance(n.ctx, ast.Load):
+                return ast.copy_location(copy.deepcopy(folds[n.id]), n)
+            return n
+
+    for s in body[:-1]:
+        folds[s.targets[0].id] = R().visit(copy.deepcopy(s.value))
+    loop.body = [R().visit(last)]
+
+
 def _loops_to_comprehensions(stmts: List[ast.stmt]) -> List[ast.stmt]:
     """L = [] ... for T in IT: [if C:] L.append(E)   ->   L = [E for T in IT if C]
     (L not read or written between its initialisation and the loop, nor inside the loop other than by the append)"""
@@ -688,6 +747,10 @@ def _loops_to_comprehensions(stmts: List[ast.stmt]) -> List[ast.stmt]:
                 j += 1
             if j < len(out) and isinstance(out[j], ast.For) and not out[j].orelse:
                 loop = out[j]
+                # temporaries of the loop body must not be used after the loop
+                temps = {s.targets[0].id for s in loop.body[:-1] if isinstance(s, ast.Assign) and len(s.targets) == 1 and isinstance(s.targets[0], ast.Name)}
+                if temps and not any(isinstance(n, ast.Name) and n.id in temps for later in out[j + 1:] for n in ast.walk(later)):
+                    _fold_loop_temps(loop)
                 body = loop.body
                 conds = []
                 while len(body) == 1 and isinstance(body[0], ast.If) and not body[0].orelse:
@@ -708,6 +771,99 @@ def _loops_to_comprehensions(stmts: List[ast.stmt]) -> List[ast.stmt]:
                         continue
         i += 1
     return out
+
+
+class _GetattrLiteral(ast.NodeTransformer):
+    """getattr(x, 'name') -> x.name   (two-argument form with a literal identifier)"""
+
+    def visit_Call(self, node):
+        self.generic_visit(node)
+        if isinstance(node.func, ast.Name) and node.func.id == "getattr" and len(node.args) == 2 and not node.keywords \
+                and isinstance(node.args[1], ast.Constant) and isinstance(node.args[1].value, str) and node.args[1].value.isidentifier():
+            return ast.copy_location(ast.Attribute(value=node.args[0], attr=node.args[1].value, ctx=ast.Load()), node)
+        return node
+
+
+def _dict_loops_to_comprehensions(stmts: List[ast.stmt]) -> List[ast.stmt]:
+    """D = {} ; for T in IT: [if C:] D[K] = V   ->   D = {K: V for T in IT if C}   (adjacent statements)"""
+    for st in stmts:
+        for field in ("body", "orelse", "finalbody"):
+            sub = getattr(st, field, None)
+            if isinstance(sub, list) and sub and isinstance(sub[0], ast.stmt):
+                setattr(st, field, _dict_loops_to_comprehensions(sub))
+        if isinstance(st, ast.Try):
+            for hd in st.handlers:
+                hd.body = _dict_loops_to_comprehensions(hd.body)
+    out: List[ast.stmt] = []
+    i = 0
+    while i < len(stmts):
+        st = stmts[i]
+        nxt = stmts[i + 1] if i + 1 < len(stmts) else None
+        if isinstance(st, ast.Assign) and len(st.targets) == 1 and isinstance(st.targets[0], ast.Name) and isinstance(st.value, ast.Dict) and not st.value.keys \
+                and isinstance(nxt, ast.For) and not nxt.orelse:
+            name = st.targets[0].id
+            body, conds = nxt.body, []
+            while len(body) == 1 and isinstance(body[0], ast.If) and not body[0].orelse:
+                conds.append(body[0].test)
+                body = body[0].body
+            if len(body) == 1 and isinstance(body[0], ast.Assign) and len(body[0].targets) == 1 and isinstance(body[0].targets[0], ast.Subscript) \
+                    and isinstance(body[0].targets[0].value, ast.Name) and body[0].targets[0].value.id == name:
+                k, v = body[0].targets[0].slice, body[0].value
+                if not any(isinstance(n, ast.Name) and n.id == name for part in [k, v, nxt.iter] + conds for n in ast.walk(part)):
+                    comp = ast.DictComp(key=k, value=v, generators=[ast.comprehension(target=copy.deepcopy(nxt.target), iter=nxt.iter, ifs=conds, is_async=0)])
+                    out.append(ast.copy_location(ast.Assign(targets=st.targets, value=ast.copy_location(comp, nxt), lineno=st.lineno), st))
+                    i += 2
+                    continue
+        out.append(st)
+        i += 1
+    return out
+
+
+def _fold_tagged_temps(fn):
+    """t__tag = E ; <next statement using t__tag exactly once>  ->  the use reads E  (temporaries produced by the inliner only:
+    definition and use are adjacent, so nothing can happen in between)"""
+    uses: Dict[str, int] = {}
+    binds: Dict[str, int] = {}
+    for n in _walk_own(fn):
+        if isinstance(n, ast.Name) and "__" in n.id:
+            if isinstance(n.ctx, ast.Load):
+                uses[n.id] = uses.get(n.id, 0) + 1
+            else:
+                binds[n.id] = binds.get(n.id, 0) + 1
+
+    def scan(stmts):
+        out: List[ast.stmt] = []
+        i = 0
+        while i < len(stmts):
+            st = stmts[i]
+            for field in ("body", "orelse", "finalbody"):
+                sub = getattr(st, field, None)
+                if isinstance(sub, list) and sub and isinstance(sub[0], ast.stmt) and not isinstance(st, FDEFS + (ast.ClassDef,)):
+                    setattr(st, field, scan(sub))
+            if isinstance(st, ast.Try):
+                for hd in st.handlers:
+                    hd.body = scan(hd.body)
+            nxt = stmts[i + 1] if i + 1 < len(stmts) else None
+            if nxt is not None and isinstance(st, ast.Assign) and len(st.targets) == 1 and isinstance(st.targets[0], ast.Name) and "__" in st.targets[0].id:
+                t = st.targets[0].id
+                if binds.get(t) == 1 and uses.get(t) == 1 and isinstance(nxt, (ast.Assign, ast.AnnAssign, ast.AugAssign, ast.Expr, ast.Return)) \
+                        and sum(1 for n in ast.walk(nxt) if isinstance(n, ast.Name) and n.id == t and isinstance(n.ctx, ast.Load)) == 1:
+                    val = st.value
+
+                    class R(ast.NodeTransformer):
+                        def visit_Name(self, n):
+                            if n.id == t and isinstance(n.ctx, ast.Load):
+                                return ast.copy_location(val, n)
+                            return n
+
+                    stmts[i + 1] = R().visit(nxt)
+                    i += 1
+                    continue
+            out.append(st)
+            i += 1
+        return out
+
+    fn.body = scan(fn.body)
 
 
 def _fold_stable_aliases(fn):
@@ -744,6 +900,11 @@ def _fold_stable_aliases(fn):
             return is_const(e.left) and is_const(e.right)
         if isinstance(e, ast.Name):
             return e.id.isupper() and e.id not in binds and e.id not in params
+        if isinstance(e, ast.Attribute) and e.attr.isupper():
+            x = e.value
+            while isinstance(x, ast.Attribute):
+                x = x.value
+            return isinstance(x, ast.Name) and x.id not in binds and x.id not in params and x.id != "self"
         return False
 
     folds: Dict[str, ast.AST] = {}
@@ -770,6 +931,7 @@ def _fold_stable_aliases(fn):
                     elif is_const(v) and not isinstance(v, (ast.Constant, ast.Name)):
                         folds[t] = v
                         continue
+
             keep.append(st)
         return keep
 
@@ -813,9 +975,12 @@ def normalise_module(module_name: str, tree: ast.Module) -> ast.Module:
                 _eliminate_aliases(n)
         _swap_negative_ifs(tree)
     tree.body = _flatten_block(tree.body)
+    tree = _GetattrLiteral().visit(tree)
     for n in ast.walk(tree):
         if isinstance(n, FDEFS):
             n.body = _loops_to_comprehensions(n.body)
+            n.body = _dict_loops_to_comprehensions(n.body)
+            _fold_tagged_temps(n)
             _fold_stable_aliases(n)
     ast.fix_missing_locations(tree)
     return tree
